@@ -34,7 +34,11 @@ func sockAcceptFn(_ context.Context, mod api.Module, params []uint64) (errno sys
 
 	var connFD int32
 	if connFD, errno = fsc.SockAccept(fd, nonblock); errno == 0 {
-		mem.WriteUint32Le(resultFd, uint32(connFD))
+		if !mem.WriteUint32Le(resultFd, uint32(connFD)) {
+			// The guest cannot learn the descriptor: do not leave the connection in its table.
+			_ = fsc.CloseFile(connFD)
+			return sys.EFAULT
+		}
 	}
 	return
 }
@@ -73,6 +77,12 @@ func sockRecvFn(_ context.Context, mod api.Module, params []uint64) sys.Errno {
 	}
 
 	if riFlags&wasip1.RI_RECV_PEEK != 0 {
+		if riDataCount == 0 { // No buffer to peek into: nothing at riData belongs to this call.
+			if !mem.WriteUint32Le(resultRoDatalen, 0) || !mem.WriteUint16Le(resultRoFlags, 0) {
+				return sys.EFAULT
+			}
+			return 0
+		}
 		// Each record in riData is of the form:
 		// type iovec struct { buf *uint8; bufLen uint32 }
 		// This means that the first `uint32` is a `buf *uint8`.
@@ -93,8 +103,9 @@ func sockRecvFn(_ context.Context, mod api.Module, params []uint64) sys.Errno {
 		if err != 0 {
 			return err
 		}
-		mem.WriteUint32Le(resultRoDatalen, uint32(n))
-		mem.WriteUint16Le(resultRoFlags, 0)
+		if !mem.WriteUint32Le(resultRoDatalen, uint32(n)) || !mem.WriteUint16Le(resultRoFlags, 0) {
+			return sys.EFAULT
+		}
 		return 0
 	}
 
@@ -106,8 +117,9 @@ func sockRecvFn(_ context.Context, mod api.Module, params []uint64) sys.Errno {
 	if errno != 0 {
 		return errno
 	}
-	mem.WriteUint32Le(resultRoDatalen, bufSize)
-	mem.WriteUint16Le(resultRoFlags, 0)
+	if !mem.WriteUint32Le(resultRoDatalen, bufSize) || !mem.WriteUint16Le(resultRoFlags, 0) {
+		return sys.EFAULT
+	}
 	return 0
 }
 
@@ -147,7 +159,9 @@ func sockSendFn(_ context.Context, mod api.Module, params []uint64) sys.Errno {
 	if errno != 0 {
 		return errno
 	}
-	mem.WriteUint32Le(resultSoDatalen, bufSize)
+	if !mem.WriteUint32Le(resultSoDatalen, bufSize) {
+		return sys.EFAULT
+	}
 	return 0
 }
 
